@@ -35,6 +35,8 @@ type Env struct {
 	instOnly []Val // when set: instantiate quantified hypotheses with exactly these terms and drop the quantified original
 	inQuant  bool
 	bound    map[string]Val
+	altBlock *ssa.BasicBlock // second program point tried for local names (the call site of before/after)
+	altIdx   int
 }
 
 type evalErr struct{ msg string }
@@ -455,9 +457,17 @@ func (e *Env) objVal(obj types.Object) (Val, bool) {
 // localVar resolves a source-level local variable at the environment's program point:
 // the nearest dominating DebugRef or phi for a variable of that name.
 func (e *Env) localVar(name string) (Val, bool) {
+	if v, ok := e.localVarAt(name, e.block, e.idx); ok {
+		return v, true
+	}
+	if e.altBlock != nil {
+		return e.localVarAt(name, e.altBlock, e.altIdx)
+	}
+	return Val{}, false
+}
+
+func (e *Env) localVarAt(name string, b *ssa.BasicBlock, idx int) (Val, bool) {
 	tr := e.tr
-	b := e.block
-	idx := e.idx
 	if b == nil {
 		return Val{}, false
 	}
@@ -510,9 +520,17 @@ func (e *Env) localVar(name string) (Val, bool) {
 
 // localAddr resolves a source-level local variable that lives in memory (address-taken) to its address.
 func (e *Env) localAddr(name string) (string, types.Type, bool) {
+	if a, t, ok := e.localAddrAt(name, e.block, e.idx); ok {
+		return a, t, true
+	}
+	if e.altBlock != nil {
+		return e.localAddrAt(name, e.altBlock, e.altIdx)
+	}
+	return "", nil, false
+}
+
+func (e *Env) localAddrAt(name string, b *ssa.BasicBlock, idx int) (string, types.Type, bool) {
 	tr := e.tr
-	b := e.block
-	idx := e.idx
 	for b != nil {
 		instrs := b.Instrs
 		if idx > len(instrs) {
@@ -1141,6 +1159,9 @@ func (e *Env) callExpr(x *Expr) Val {
 		}
 		if e2.heap == nil {
 			e.fail("site %s has not been reached on this path", x.A[0].S)
+		}
+		if s.Block != nil {
+			e2.altBlock, e2.altIdx = s.Block, s.Index
 		}
 		return e2.eval(x.A[1])
 	case "as":
